@@ -805,6 +805,9 @@ WS_FIXED = [
      ("aB", "class aB (aC)\nfb : int4\nproc RunB\n fa = fb + fc\nendproc\n"),
      ("aC", "class aC (aB)\nfc : int4\nproc RunC\n fa = fb + fc\n self.\nendproc\n")],
     [("aA", "class aA (AA)\nfa : int4\nproc Run\n fa = 1\nendproc\n")],
+    # constants and types declared INSIDE a method body, named like class-level ones / used from another method
+    [("aLoc", "class aLoc\nconst cLimit = 10\nproc First\n const cLimit = 5\n type tLocal : int4\n var a : tLocal\n x = cLimit\nendproc\n"
+              "proc Second\n var b : tLocal\n y = cLimit\nendproc\n")],
     # body-less methods WITH parameters (forward / external) between methods with bodies: their parameters are nobody's locals
     [("aExt", "class aExt (aExtBase)\nconst cDerived = 1\nHandle : int4\nproc Open(Handle : int4, Mode : int4) external 'Dll.Open'\n"
               "func Find(Key : int4) return int4 forward\nproc Work(Count : int4)\n var total : int4\n total = Count + cBase\n \n self.Handle = total\nendproc\n"
@@ -854,6 +857,27 @@ WS_POS = {}
 _RE_METH = _re.compile(r"^\s*(proc|procedure|func|function)\b", _re.I)
 _RE_END = _re.compile(r"^\s*(endproc|endfunc|end)\s*$", _re.I)
 _RE_ID = _re.compile(r"[A-Za-z_][A-Za-z0-9_]*")
+
+
+def _ws_body_span(lines, l):
+    """(header line, end line) of the method whose BODY holds line l (strictly between the two), else None"""
+    if l >= len(lines) or _RE_METH.match(lines[l]) or _RE_END.match(lines[l]):
+        return None
+    start = None
+    for i in range(l - 1, -1, -1):
+        if _RE_END.match(lines[i]):
+            return None
+        if _RE_METH.match(lines[i]):
+            start = i
+            break
+    if start is None:
+        return None
+    for i in range(l + 1, len(lines)):
+        if _RE_END.match(lines[i]):
+            return (start, i)
+        if _RE_METH.match(lines[i]):
+            return None
+    return None
 
 
 def _ws_plain_allowed(files, lines, l, col):
@@ -949,6 +973,12 @@ def ws_oracle(case, obs):
                     sel = [int(x) for x in parts[1].split(":")]
                     if sel[0] != sel[2] or sel[0] >= len(tl):
                         return "file %s answer %d: selection range %r not on one existing line of %s" % (stem, k, sel, tstem)
+                    # the scoping rules never select a declaration inside ANOTHER method's body (a local, or a constant /
+                    # type declared inside a body, belongs to that method alone)
+                    tspan = _ws_body_span(tl, sel[0])
+                    if tspan is not None and not (tstem == stem and tspan == _ws_body_span(lines, l)):
+                        return ("file %s at %d:%d on %r: the link lands on line %d of %s, inside the body of another method (lines %d-%d)"
+                                % (stem, l, col, ident, sel[0], tstem, tspan[0], tspan[1]))
                     got = tl[sel[0]][sel[1]:sel[3]]
                     if "#" in got:
                         got = "".join(got.split())
